@@ -10,3 +10,4 @@ pub mod refclass;
 pub mod rs;
 pub mod sweep;
 pub mod bcalls;
+pub mod fuzzing;
